@@ -101,6 +101,8 @@ pub enum FMut {
 	State(u8),
 	AmountPlus1,
 	DropRecipient,
+	/// the request claims a cutoff height that has passed (the field is the peer's to set)
+	TtlExpired,
 }
 
 #[derive(Clone, Debug, Serialize, Deserialize, PartialEq)]
@@ -175,6 +177,9 @@ fn alphabet() -> Vec<Req> {
 		(FSlate::ValidI2, FMut::SigMissing),
 		(FSlate::ValidI2, FMut::State(2)),
 		(FSlate::ValidI2, FMut::DropRecipient),
+		(FSlate::ValidS2, FMut::TtlExpired),
+		(FSlate::ValidI2, FMut::TtlExpired),
+		(FSlate::OwnS1, FMut::TtlExpired),
 	]
 	.iter()
 	{
@@ -524,6 +529,7 @@ impl Model for M {
 					FMut::DropRecipient => {
 						s.participant_data.clear();
 					}
+					FMut::TtlExpired => s.ttl_cutoff_height = 1,
 				}
 				in_slate = Some(s.clone());
 				if *rpc {
